@@ -1638,7 +1638,12 @@ process(PseudoTcpSocket *self, Segment *seg)
     } else if (seg->data[0] == CTL_CONNECT) {
       bConnect = TRUE;
 
-      parse_options (self, (guint8 *) &seg->data[1], seg->len - 1);
+      /* Options are negotiated during the handshake only: a connect message
+       * received later (a retransmission, or a forged one) must not change
+       * them. */
+      if (priv->state == PSEUDO_TCP_LISTEN ||
+          priv->state == PSEUDO_TCP_SYN_SENT)
+        parse_options (self, (guint8 *) &seg->data[1], seg->len - 1);
 
       if (priv->state == PSEUDO_TCP_LISTEN) {
         set_state (self, PSEUDO_TCP_SYN_RECEIVED);
